@@ -9,6 +9,59 @@
 #include <thread>
 #include <condition_variable>
 
+#ifdef FASTSCAPELIB_VERIF_HOOKS
+// Verification hooks (schedule points): compiled only when
+// FASTSCAPELIB_VERIF_HOOKS is defined. A test harness may install a callback
+// that is invoked at every synchronisation step of the pool so that thread
+// interleavings can be observed and steered.
+namespace fastscapelib
+{
+    namespace verif
+    {
+        enum sched_point : int
+        {
+            pausejob_before_lock = 1,
+            pausejob_after_lock = 2,
+            pausejob_after_inc = 3,  // between ++m_paused_count and m_cv.wait
+            pausejob_after_wait = 4,
+            runtasks_before_store = 5,
+            runtasks_after_store = 6,
+            pause_spin = 7,
+            resume_before_notify = 8,
+            resume_after_notify = 9,
+            wait_spin = 10,
+            worker_loop = 11,
+            worker_before_job = 12,
+            worker_after_job = 13,
+            worker_after_clear = 14,
+            stop_before_join = 15,
+            worker_exit = 16,
+            wait_done = 17,
+            pause_done = 18
+        };
+
+        // worker: index of the worker thread, or (std::size_t)-1 for the caller
+        using sched_callback = void (*)(int point, std::size_t worker, const void* pool);
+
+        inline std::atomic<sched_callback>& sched_hook()
+        {
+            static std::atomic<sched_callback> hook{ nullptr };
+            return hook;
+        }
+    }
+}
+#define FASTSCAPELIB_VERIF_SCHED(point, worker)                                                    \
+    do                                                                                             \
+    {                                                                                              \
+        auto verif_cb_                                                                             \
+            = ::fastscapelib::verif::sched_hook().load(std::memory_order_relaxed);                 \
+        if (verif_cb_)                                                                             \
+            verif_cb_(::fastscapelib::verif::point, worker, this);                                 \
+    } while (0)
+#else
+#define FASTSCAPELIB_VERIF_SCHED(point, worker) ((void) 0)
+#endif
+
 
 namespace fastscapelib
 {
